@@ -169,6 +169,20 @@ def run(ctx, rep):
                "(%sargs, tuple(kwargs.items()))" % ("name, " if extra else "") if ok else
                "positional or keyword operands are dropped/misplaced on the proxy side: %s" % why, f.loc)
 
+    # the receiver of a **kwargs forwarder must not shadow a keyword the caller may pass (`self=` is an ordinary keyword of the target)
+    for q in ("rpyc.core.netref._make_method.__call__", "rpyc.core.netref._make_method.method#2",
+              "rpyc.utils.helpers._Async.__call__", "rpyc.utils.helpers.timed.__call__"):
+        f = ctx.func(q)
+        rep.analysed(f)
+        named = [a.arg for a in f.node.args.posonlyargs + f.node.args.args + f.node.args.kwonlyargs]
+        bad = [n for n in named if not n.startswith("_")]
+        okn = f.node.args.kwarg is not None and not bad
+        rep.ob("R01.3", "%s: no named parameter can collide with a forwarded keyword" % q.split(".", 2)[-1], okn,
+               "receiver is `%s` (underscore-reserved), everything else goes through *args/**kwargs" % (named[0] if named else "?")
+               if okn else "the forwarder declares the ordinary name(s) %s next to **kwargs: a call passing that keyword (e.g. "
+               "`self=obj` to an unbound method or to a function whose parameter is called self) fails locally with TypeError "
+               "and never reaches the target" % bad, f.loc, kind="site")
+
     # ------------------------------------------------------------------ R01.4
     K.share(ctx, rep, "c08", lambda o: o.rule == "R08.1" and ("carries the handler's result" in o.key or
                                                               "no-exception continuation" in o.key), "R01.4", floor=2)
